@@ -511,3 +511,17 @@ MUTATIONS += [
     dict(id="C08-from-binary-offset-of-previous-blob", prop="C08", file=PFILE, old="                Ok(entry) => entry.into_blob(offset),", new="                Ok(entry) => entry.into_blob(offset.saturating_sub(1)),"),
     dict(id="C08-from-binary-offset-counts-entries", prop="C08", file=PFILE, old="            offset += blob.location.length;\n            blobs.push(blob);", new="            offset += 1;\n            blobs.push(blob);"),
 ]
+
+PKF2 = "crates/core/src/blob/packer.rs"
+MUTATIONS += [
+    # regression of defect 10 in the pipeline filter: the other packer's type is asked
+    dict(id="C07-packer-filter-untyped", prop="C07", file=PKF2, old="                    .filter(|(_, id)| !indexer.read().unwrap().has(blob_type, id))\n                    .filter(|(_, id)| !raw_packer", new="                    .filter(|(_, id)| !indexer.read().unwrap().has(BlobType::Data, id))\n                    .filter(|(_, id)| !raw_packer"),
+    dict(id="C07-packer-filter-inverted", prop="C07", file=PKF2, old="                    .filter(|(_, id)| !indexer.read().unwrap().has(blob_type, id))\n                    .filter(|(_, id)| !raw_packer", new="                    .filter(|(_, id)| indexer.read().unwrap().has(blob_type, id))\n                    .filter(|(_, id)| !raw_packer"),
+]
+
+FAF = "crates/core/src/archiver/file_archiver.rs"
+MUTATIONS += [
+    dict(id="C07-chunk-uploaded-although-known", prop="C07", file=FAF, old="            if !self.index.has_data(&DataId::from(id)) {\n                self.data_packer.add(chunk.into(), BlobId::from(id))?;\n            }", new="            self.data_packer.add(chunk.into(), BlobId::from(id))?;"),
+    dict(id="C07-chunk-skipped-although-new", prop="C07", file=FAF, old="            if !self.index.has_data(&DataId::from(id)) {", new="            if self.index.has_data(&DataId::from(id)) {"),
+    dict(id="C07-chunk-size-off", prop="C07", file=FAF, old="            let size = chunk.len() as u64;", new="            let size = chunk.len() as u64 + 1;"),
+]
